@@ -27,6 +27,8 @@ LEVEL = "model_checking"
 SM = "smSrv"
 EQS = ["S", "k"]
 KINDS = ["run-step", "run-steps", "stream-steps"]
+# the same requests without a JSON body (run-steps needs its numberSteps): "<kind>:nobody"
+NOBODY = ["run-step:nobody", "stream-steps:nobody"]
 STOP = 3.0     # stream-steps streams the rest of the grid: keep it short (4 grid points)
 
 _points = None
@@ -78,13 +80,15 @@ def setup_server():
 
 def do_request(app, iid, kind):
     c = app.test_client()
+    kind, _, variant = kind.partition(":")
+    kw = {} if variant == "nobody" else {"json": {"settings": {}}}
     if kind == "run-step":
-        r = c.post("/%s/run-step" % iid, json={"settings": {}})
+        r = c.post("/%s/run-step" % iid, **kw)
         return (r.status_code, srv.unpickle_json(srv.body(r)))
     if kind == "run-steps":
         r = c.post("/%s/run-steps" % iid, json={"numberSteps": 2, "settings": {}})
         return (r.status_code, srv.unpickle_json(srv.body(r)))
-    r = c.post("/%s/stream-steps" % iid, json={"settings": {}})
+    r = c.post("/%s/stream-steps" % iid, **kw)
     try:
         b = srv.unpickle_json(srv.read_stream(r, 200))
     except srv.StreamOverflow:
@@ -96,6 +100,7 @@ def times_of(kind, status, body):
     """simulation times a successful response reports (in order); None if refused/failed"""
     if status != 200:
         return None
+    kind = kind.partition(":")[0]
     steps = [body] if kind == "run-step" else body
     if not isinstance(steps, list):
         return "MALFORMED"
@@ -246,12 +251,18 @@ def run(ctx):
         print("HARNESS-ERROR: C18 replay of the default schedule diverged")
         raise SystemExit(2)
     jobs = []
-    for kinds in core.rot(combos, ctx.seed):
+    # pairs in which a request comes without a JSON body (the handlers branch on it)
+    all5 = KINDS + NOBODY
+    nobody_pairs = [p for p in itertools.combinations_with_replacement(all5, 2) if any(":" in k for k in p)]
+    if ctx.tier == "quick":
+        nobody_pairs = [("run-step", "stream-steps:nobody"), ("stream-steps:nobody", "stream-steps:nobody"), ("run-step:nobody", "run-step:nobody"), ("run-steps", "run-step:nobody")]
+    combos_all = combos + nobody_pairs
+    for kinds in core.rot(combos_all, ctx.seed):
         points, choices, _ = run_one(list(kinds), [])
         jobs.append((list(kinds), 0, []))
         # the two smallest pairs get bound 2 in the quick tier as well: a window between checking and taking the lock needs one
         # preemption to enter and a second one to keep the other request in progress
-        b2 = 2 if (ctx.tier == "thorough" or kinds in (("run-step", "run-step"), ("run-step", "run-steps"))) else bound
+        b2 = 2 if ((ctx.tier == "thorough" and kinds in combos) or kinds in (("run-step", "run-step"), ("run-step", "run-steps"), ("run-step:nobody", "run-step:nobody"))) else 1
         for r in sched.alternatives(points, choices, 0, b2):
             jobs.append((list(kinds), b2, r))
     # three requests: bound 1 for all kind triples (thorough), bound 2 for the triples that contain a stream and a single step
@@ -294,11 +305,11 @@ def run(ctx):
         ctx.violation("C18/" + sig, case, detail)
     ctx.finish({
         "states": total, "transitions": total, "traces_validated_against_impl": total,
-        "preemption_bound": bound, "preemption_bound_small_pairs": 2, "max_scheduling_points": maxpts, "request_combinations": ["+".join(k) for k in combos],
+        "preemption_bound": bound, "preemption_bound_small_pairs": 2, "max_scheduling_points": maxpts, "request_combinations": ["+".join(k) for k in combos_all],
         "distinct_outcomes_per_combination": {k: len(v) for k, v in outcomes.items()},
         "release_cases": 8,
         "samples": [{"kinds": jobs[1][0], "schedule_prefix": jobs[1][2]}, {"kinds": jobs[-1][0], "schedule_prefix": jobs[-1][2]}],
-        "rule": "every schedule with <= %d preemptions of two concurrent stepping requests (all 6 unordered kind pairs%s) at the source lines of the stepping "
+        "rule": "every schedule with <= %d preemptions of two concurrent stepping requests (all 6 unordered kind pairs, and pairs with a request that has no JSON body at <= 1%s) at the source lines of the stepping "
                 "handlers, the streamer, lock/unlock/is_locked/try_lock and the session-touching lines of bptk.run_step; plus 8 sequential release cases" % (
                     bound, "; three requests: " + ", ".join("%s<=%d" % ("+".join(k), b) for k, b in triples)),
     }, assumptions=["preemption at source-line granularity only", "Flask test clients in controlled threads instead of a threaded WSGI server",
